@@ -660,7 +660,11 @@ func (st *AclState) applyRequestAccept(ch *aclrecordproto.AclAccountRequestAccep
 	if err != nil {
 		return err
 	}
-	requestRecord, _ := st.requestRecords[ch.RequestRecordId]
+	requestRecord, exists := st.requestRecords[ch.RequestRecordId]
+	if !exists {
+		// reachable only when content validation is off (non-validating verifier)
+		return ErrNoSuchRequest
+	}
 	pKeyString := mapKeyFromPubKey(acceptIdentity)
 	state, exists := st.accountStates[pKeyString]
 	permissions := AclPermissions(ch.Permissions)
@@ -789,6 +793,10 @@ func (st *AclState) applyRequestDecline(ch *aclrecordproto.AclAccountRequestDecl
 	if err != nil {
 		return err
 	}
+	if _, exists := st.requestRecords[ch.RequestRecordId]; !exists {
+		// reachable only when content validation is off (non-validating verifier)
+		return ErrNoSuchRequest
+	}
 	pk := mapKeyFromPubKey(st.requestRecords[ch.RequestRecordId].RequestIdentity)
 	accSt, exists := st.accountStates[pk]
 	if !exists {
@@ -805,6 +813,10 @@ func (st *AclState) applyRequestCancel(ch *aclrecordproto.AclAccountRequestCance
 	err := st.contentValidator.ValidateRequestCancel(ch, record.Identity)
 	if err != nil {
 		return err
+	}
+	if _, exists := st.requestRecords[ch.RecordId]; !exists {
+		// reachable only when content validation is off (non-validating verifier)
+		return ErrNoSuchRequest
 	}
 	pk := mapKeyFromPubKey(st.requestRecords[ch.RecordId].RequestIdentity)
 	accSt, exists := st.accountStates[pk]
